@@ -244,7 +244,28 @@ def rule_prefix_only(ctx):
         return
     o = Origin(b)
     frp = list(b.calls(lambda c: c.short == "std::vec::Vec::from_raw_parts"))
-    ctx.floor(R, "Vec::from_raw_parts", len(frp), 1)
+    if not frp:
+        # safe form: a vector of the requested length is filled and must be cut to the number of bytes actually read
+        ex0 = Exits(b)
+        rd0 = [x for x, t in b.calls(lambda c: c.is_(MR + "::read"))]
+        cuts = set()
+        for x, t in b.calls(lambda c: c.short in ("std::vec::Vec::truncate", "std::vec::Vec::set_len", "std::vec::Vec::resize")):
+            n_ = strip(o.call_args(x)[1])
+            if n_[0] == "call" and n_[1] == MR + "::read":
+                cuts.add(x)
+        ok = bool(rd0) and bool(ex0.ok_defs)
+        w = None
+        if ok:
+            for (eb, si) in ex0.ok_defs:
+                if witness_path(b, rd0[0], {eb}):
+                    w = must_pass(b, rd0[0], {eb}, cuts)
+                    if w is not None:
+                        ok = False
+        ctx.check(ok, R, "len=bytes-read", b.where(rd0[0]) if rd0 else None,
+                  "the returned vector is cut to the number of bytes the read reported on every success path",
+                  "read_to_vec returns a buffer of the requested length whatever the read reported: after a short read the tail holds bytes that were never in the target",
+                  detail={"path": w})
+        ctx.floor(R, "read call in read_to_vec", len(rd0), 1)
     for bi, t in frp:
         a = o.call_args(bi)
         ptr, ln, cap = strip(a[0]), strip(a[1]), core(a[2])
@@ -266,13 +287,16 @@ def rule_prefix_only(ctx):
     de = list(b.calls(lambda c: c.short == "std::alloc::dealloc"))
     ex = Exits(b)
     rd = [x for x, t in b.calls(lambda c: c.is_(MR + "::read"))]
+    if not frp:
+        de = None   # an owned Vec is dropped on the error path by construction
     # every error exit after the read passes dealloc
     okd = bool(de) and bool(rd)
     if okd:
         for (eb, si) in ex.err_defs:
             if witness_path(b, rd[0], {eb}) and must_pass(b, rd[0], {eb}, {x for x, _ in de}) is not None:
                 okd = False
-    ctx.check(okd, R, "freed-on-error", b.where(de[0][0]) if de else None, "when the read fails the buffer is freed and nothing is returned", "a failed read can leak or return the buffer")
+    if de is not None:
+        ctx.check(okd, R, "freed-on-error", b.where(de[0][0]) if de else None, "when the read fails the buffer is freed and nothing is returned", "a failed read can leak or return the buffer")
     # copy_from_process: NonZero(length), read_to_vec(src, length) on a fresh reader for pid
     cb = None
     for body in ctx.prog.bodies:
